@@ -94,7 +94,7 @@ def towers():
                 d = ["sin", ["div", d, y]]
                 e = ["abs", ["floor", ["div", e, I(2)]]]
                 f = ["pow", ["div", f, y], Q(2, 3)]
-                g = ["piecewise", L(L(["div", g, I(2)], ["Lt", x, g]), L(["pow", g, I(2)], ["true"]))]
+                g = ["piecewise", L(L(["div", g, I(2)], ["Lt", x, I(1)]), L(x, ["true"]))]
             out += [a, b, c, d, e, f, g, ["div", a, b], ["pow", c, d], ["mul", e, f], ["Eq", a, c], ["function_symbol", "f", L(a, b)]]
     return out
 
@@ -134,14 +134,15 @@ def fixed_recipes():
                 [o, L(b1, ["xor", L(b2, b3)])], [o, L(b1, ["contains", x, ["interval", I(0), I(1), False, True]])]]
     out += [["not", b1], ["not", ["xor", L(b1, b2)]], ["not", ["xor", L(["Lt", ["pow", x, I(2)], y], b2)]], ["true"], ["false"],
             ["not", ["contains", x, ["reals"]]], ["contains", ["div", x, y], ["interval", I(0), ["oo"], False, True]]]
-    sets = [["interval", I(0), I(1), lo, ro] for lo in (False, True) for ro in (False, True)]
-    sets += [["interval", Q(-1, 2), ["oo"], False, True], ["finiteset", L(x)], ["finiteset", L(x, y, I(1))],
-             ["finiteset", L(["div", x, y], ["pow", x, I(2)])]] + tr._SETS0
-    sets += [["conditionset", x, b1], ["conditionset", x, ["and", L(b1, b3)]], ["imageset", x, ["pow", x, I(2)], ["integers"]],
-             ["imageset", x, ["div", x, y], ["interval", I(0), I(1), False, False]]]
-    out += sets
-    for a in sets[:8] + sets[12:]:
-        for b in sets[4:14]:
+    simple = [["interval", I(0), I(1), lo, ro] for lo in (False, True) for ro in (False, True)]
+    simple += [["interval", Q(-1, 2), ["oo"], False, True], ["interval", ["noo"], I(0), True, False], ["finiteset", L(x)],
+               ["finiteset", L(x, y, I(1))], ["finiteset", L(["div", x, y], ["pow", x, I(2)])], ["emptyset"], ["universalset"],
+               ["reals"], ["integers"]]
+    other = [["rationals"], ["naturals"], ["naturals0"], ["complexes"], ["conditionset", x, b1], ["conditionset", x, ["and", L(b1, b3)]],
+             ["imageset", x, ["pow", x, I(2)], ["integers"]], ["imageset", x, ["div", x, y], ["interval", I(0), I(1), False, False]]]
+    out += simple + other
+    for a in simple:
+        for b in simple:
             out += [["set_union", L(a, b)], ["set_intersection", L(a, b)], ["set_complement", a, b]]
     out += [["piecewise", L(L(x, b1), L(y, ["true"]))], ["piecewise", L(L(["div", x, y], b1), L(["pow", y, z], b2), L(z, ["true"]))],
             ["piecewise", L(L(x, b1), L(y, b2))], ["piecewise", L(L(["div", x, y], b1))],
